@@ -1556,11 +1556,14 @@ package goatlang
 //@   invariant#counted calls("(*parser).descend") == 1
 //@
 //@ func ledInfix
-//@   property C05 C03
+//@   property C05 C03 C20
 //@   requires p != nil && t != nil
 //@   modifies *
 //@   callsite#leftassoc (*parser).doExpression: arg_rbp == lbpOf(t.Symbol)
 //@   ensures#operands @C03 result == t && len(t.Tokens) >= 1 && t.Tokens[len(t.Tokens)-1] != nil
+//@   -- an infix node keeps the position of its operator: that is the line a faulting ADD, DIV, ...
+//@   -- is reported on, also when the left operand started on an earlier line
+//@   assert#pos @C20 @0 t.Pos == old(t.Pos)
 //@
 //@ func negateNud
 //@   property C05
